@@ -406,7 +406,9 @@ Definition append_float (b spare : list Z) (f : f64) (prec : Z) : res (list Z) :
     let neg := flt f fzero in
     let f := if neg then fneg f else f in
     let prec := if (prec <? 0) || (17 <? prec) then 17 else prec in
-    let prec := prec - float64exp f in
+    let exp10 := float64exp f in
+    let exp10 := if flt f (pow10 exp10) then exp10 - 1 else exp10 in
+    let prec := prec - exp10 in
     let f := if 308 <? prec then fmul (fmul f (pow10 308)) (pow10 (prec - 308)) else fmul f (pow10 prec) in
     let mant := f_to_i64 f in
     let mantLen := len_int mant in
@@ -425,6 +427,7 @@ Definition append_float (b spare : list Z) (f : f64) (prec : Z) : res (list Z) :
       b1 <-- grow b spare maxLen ;;
       bi <-- (if neg then b2 <-- store b1 i 45 ;; Ok (b2, i + 1) else Ok (b1, i)) ;;
       let i := snd bi in
+      let first := i in
       let last := i + mantLen in
       let dot := last - prec - exp in
       s <-- af_loop 20 (mkAf (fst bi) i last last dot exp true) mant ;;
@@ -445,7 +448,16 @@ Definition append_float (b spare : list Z) (f : f64) (prec : Z) : res (list Z) :
         if exp =? 1 then
           b4 <-- store b3 i 48 ;; reslice b4 (i + 1)
         else if exp =? 2 then
-          b4 <-- store b3 i 48 ;; b5 <-- store b4 (i + 1) 48 ;; reslice b5 (i + 2)
+          twodigits <-- (if first + 3 <=? i then
+                           match peekz b3 (i - 2) with Some c => Ok (c =? 46) | None => Panic end
+                         else Ok false) ;;
+          if twodigits then
+            match peekz b3 (i - 1) with
+            | Some c => b4 <-- store b3 (i - 2) c ;; b5 <-- store b4 (i - 1) 48 ;; reslice b5 i
+            | None => Panic
+            end
+          else
+            b4 <-- store b3 i 48 ;; b5 <-- store b4 (i + 1) 48 ;; reslice b5 (i + 2)
         else
           b4 <-- store b3 i 101 ;;
           let i := i + 1 in
